@@ -41,6 +41,8 @@ ASSUMPTIONS = [
     "rank-1 model has just two possible values)",
     "the documented meaning of noise / noise_cov_channel ('noise variance', 'covariance matrix of "
     "noise') is asserted on the recovered noise term: eps = sqrt(v) * Phi^-1(U) @ M with M'M = cov",
+    "the scale of noise_cov_channel is part of the requested covariance: at equal seed the noise "
+    "term for 4*cov is twice the one for cov (metamorphic; factor/orientation not asserted)",
     "calc_rdm is applied to the simulated dataset itself for a condition vector with scalar/None "
     "theta; for an explicit design matrix or a parameter vector of length != 1 (which calc_rdm "
     "refuses as rdm descriptor) it is applied to the same measurements with the condition labels "
@@ -422,7 +424,21 @@ def check_noise(case):
                 raise Violation('simulation %d: noise term / sqrt(variance %g) is not the standard-normal '
                                 'transform of any observed draw (closest max diff %.3g)' % (s, v1, best),
                                 'noise:variance')
-        # with noise_cov_channel only additivity and sqrt(variance) scaling (above) are asserted:
+        else:
+            # 'covariance matrix of the noise over channels': with the draws held fixed (equal
+            # seed), four times the covariance (exact power of two) doubles the noise term -
+            # the scale of the requested covariance is part of the request, whatever the factor
+            # or its orientation
+            c4 = simulate(case, mod, theta, cond_vec, noise=v1, noise_cov_channel=4.0 * cov)
+            require(len(c4) == case['n_sim'], 'make_dataset returned %d datasets' % len(c4), 'n_sim')
+            e4 = np.asarray(c4[s].measurements, dtype=float) - m['a0']
+            require(core.close(e4, 2.0 * e1, 1e-9, 8 * atol),
+                    'simulation %d: with noise_cov_channel replaced by 4 x noise_cov_channel (equal '
+                    'seed, variance %g) the noise term is not doubled: %s vs 2 x %s (mean channel '
+                    'variance requested %.4g)' % (s, v1, core._short(e4), core._short(e1),
+                                                  float(np.mean(np.diag(cov)))),
+                    'noise:covariance-scale')
+        # beyond that, with noise_cov_channel only additivity and sqrt(variance) scaling are asserted:
         # the property statement says nothing about the channel covariance of the noise term
         # (the docstring does: numpy's lower Cholesky factor is applied from the right, which
         # yields L'L instead of the requested LL' - recorded in DESIGN 6 as an observation,
